@@ -476,10 +476,14 @@ async fn run_client_h2(stim: &Value, log: &Rec) {
             if let Some(ms) = stim["client"]["idle_ms"].as_u64() { tokio::time::sleep(std::time::Duration::from_millis(ms)).await; }
             // client.raw_timeout: the grpc-timeout header is overwritten with these bytes on the way out (malformed values
             // cannot be produced through Request::set_timeout); the channel's own timeout layer and the server both see it
-            if stim["client"]["raw_timeout"].is_array() {
-                let raw = json_bytes(&stim["client"]["raw_timeout"]);
+            // client.ctype: the content type is replaced on the way out by another member of the gRPC family (application/grpc+proto: what
+            // other stacks send); deadlines apply to such a call like to any other
+            if stim["client"]["raw_timeout"].is_array() || stim["client"]["ctype"].is_string() {
+                let raw = if stim["client"]["raw_timeout"].is_array() { Some(json_bytes(&stim["client"]["raw_timeout"])) } else { None };
+                let ctype = stim["client"]["ctype"].as_str().map(|s| s.to_string());
                 let svc = tower::ServiceBuilder::new().map_request(move |mut r: http::Request<Body>| {
-                    if let Ok(v) = http::HeaderValue::from_bytes(&raw) { r.headers_mut().insert("grpc-timeout", v); }
+                    if let Some(raw) = &raw { if let Ok(v) = http::HeaderValue::from_bytes(raw) { r.headers_mut().insert("grpc-timeout", v); } }
+                    if let Some(c) = &ctype { if let Ok(v) = http::HeaderValue::from_str(c) { r.headers_mut().insert("content-type", v); } }
                     r
                 }).service(ch);
                 drive_client(SvcClient::new(svc), stim, log).await
